@@ -570,7 +570,7 @@ theorem chunked_tail (t : Tok) (r : List Tok) (ht : Plain t) (h : Chunked (t :: 
   | qpath j o c inner r' ho hc hb hr => exact absurd ho (by simp [ht.1])
   | closure o c params r' ho hc hp hr => exact absurd ho (by simp [ht.2.1])
 
-theorem startsWithAlias_none' (e rest : List Tok) (hne : e ≠ []) (hna : NotAliasStart e)
+theorem startsWithAlias_none_any (e rest : List Tok) (hne : e ≠ []) (hna : NotAliasStart e)
     (hr : StartsWithComma rest) : startsWithAlias (e ++ rest) = none := by
   cases e with
   | nil => exact absurd rfl hne
@@ -668,7 +668,7 @@ theorem chunked_list_split_at_commas (c : Tok) (hc : c.isComma = true) :
       have hpe := hp e (by simp)
       have h1 : parseArg (e ++ []) = some ({ alias := none, expr := mkExpr e }, []) := by
         unfold parseArg
-        rw [startsWithAlias_none' e [] he (hna e (by simp)) trivial, parseExpr_chunked e [] he hpe trivial]
+        rw [startsWithAlias_none_any e [] he (hna e (by simp)) trivial, parseExpr_chunked e [] he hpe trivial]
       simp only [List.append_nil] at h1
       cases e with
       | nil => exact absurd rfl he
@@ -683,7 +683,7 @@ theorem chunked_list_split_at_commas (c : Tok) (hc : c.isComma = true) :
       have h1 : parseArg (e ++ c :: joinC c (e2 :: es))
           = some ({ alias := none, expr := mkExpr e }, c :: joinC c (e2 :: es)) := by
         unfold parseArg
-        rw [startsWithAlias_none' e _ he (hna e (by simp)) hr, parseExpr_chunked e _ he hpe hr]
+        rw [startsWithAlias_none_any e _ he (hna e (by simp)) hr, parseExpr_chunked e _ he hpe hr]
       have ih := chunked_list_split_at_commas c hc (e2 :: es) f
         (fun x hx => hne x (by simp [hx])) (fun x hx => hp x (by simp [hx]))
         (fun x hx => hna x (by simp [hx])) (by simp at hf ⊢; omega)
